@@ -61,19 +61,19 @@ Definition chosen_fill (v : pvar) : option Z :=
     end
   end.
 
-(* value written into masked cells by addVariableData:
-   getattr(nvar,'fill_value', getattr(nvar,'_FillValue', getattr(pvar,'missing_value', -9999)));
+(* value written into masked cells by addVariableData (repaired order: what is declared as _FillValue first):
+   getattr(nvar,'_FillValue', getattr(nvar,'fill_value', getattr(pvar,'missing_value', -9999)));
    scalar variables are assigned as masked arrays and filled by netCDF4 with _FillValue *)
 Definition data_fill (v : pvar) (dflt : Z) : Z :=
-  match p_dims v with
-  | [] => match chosen_fill v with Some c => c | None => dflt end
-  | _ => match p_fv v with
-         | Some f => f
-         | None => match chosen_fill v with
-                   | Some c => c
+  match chosen_fill v with
+  | Some c => c
+  | None => match p_dims v with
+            | [] => dflt
+            | _ => match p_fv v with
+                   | Some f => f
                    | None => match p_mv v with Some m => m | None => dflt end
                    end
-         end
+            end
   end.
 
 Definition store_cells (d : Z) (cells : list (option Z)) : list Z :=
@@ -123,25 +123,32 @@ Definition has_masked (cells : list (option Z)) : bool :=
 Definition fill_consistent (dflt : Z) (v : pvar) : bool :=
   negb (has_masked (p_cells v))
   || opt_is (eff_fill v) (data_fill v dflt) || opt_is (p_mv v) (data_fill v dflt).
-Definition dom_var (dflt : Z) (v : pvar) : bool :=
+(* a variable with masked cells has some fill value (always true of masked-array variables) *)
+Definition masked_has_fill (v : pvar) : bool :=
+  negb (has_masked (p_cells v)) || match chosen_fill v with Some _ => true | None => false end.
+Definition dom_var (v : pvar) : bool :=
   forallb (fun kv => key_ok ignore_variable (fst kv)) (p_attrs v)
-  && fill_consistent dflt v
+  && masked_has_fill v
   && cells_ok (eff_fill v) (p_mv v) (p_cells v).
 Definition dom_dims (f : pfile) : bool :=
   forallb (fun d => negb (d_unlim d) || dim_used (d_name d) (pf_vars f)) (pf_dims f).
-Definition dom (dflt : Z) (f : pfile) : bool :=
+Definition dom (f : pfile) : bool :=
   dom_dims f
   && forallb (fun kv => key_ok ignore_global (fst kv)) (pf_gattrs f)
-  && forallb (dom_var dflt) (pf_vars f).
+  && forallb dom_var (pf_vars f).
+
+(* the property's own domain: an unmasked cell equal to the variable's DECLARED fill value
+   (missing_value / fill_value / _FillValue) is by definition a missing value, not data *)
+Definition in_quant (f : pfile) : bool :=
+  forallb (fun v => cells_ok (chosen_fill v) (p_mv v) (p_cells v)) (pf_vars f).
 
 (* regions of known defects *)
-Definition reg_fill_conflict (dflt : Z) (f : pfile) : bool :=
-  existsb (fun v => negb (fill_consistent dflt v)) (pf_vars f).
 Definition reg_unlim_unused (f : pfile) : bool := negb (dom_dims f).
-Definition reg_collide (f : pfile) : bool :=
+(* no fill declared and a cell equal to the netCDF default fill value of its type *)
+Definition reg_default_fill (f : pfile) : bool :=
   existsb (fun v => negb (cells_ok (eff_fill v) (p_mv v) (p_cells v))) (pf_vars f).
-Definition region_of (dflt : Z) (f : pfile) : nat :=
-  if reg_fill_conflict dflt f then 1%nat
-  else if reg_unlim_unused f then 2%nat
-  else if reg_collide f then 3%nat
+Definition region_of (f : pfile) : nat :=
+  if negb (in_quant f) then 0%nat
+  else if reg_unlim_unused f then 1%nat
+  else if reg_default_fill f then 2%nat
   else 0%nat.
